@@ -44,6 +44,7 @@ def print_closure(prog):
 
 
 def check(prog, run):
+    check_schema_block_omission(prog, run, "P12")
     from . import c03 as _c03
     _c03.check_indent(prog, run, "I1")   # = C03.I1: block strings of directive arguments are laid out by _indent
     cls, fns = print_closure(prog)
@@ -503,3 +504,57 @@ def check(prog, run):
                    "the leading-whitespace test `%s` gives %s for the first lines 'x', ' x', '\\tx' (expected False, True, True): a "
                    "description starting with the blank it misses is printed on its own indented line and read back without it"
                    % (" ".join(ast.unparse(preds[0].value).split()), [got[k] for k in ("x", " x", "\tx")]))
+
+
+def check_schema_block_omission(prog, run, rule_id):
+    from .. import boolx
+    """The `schema { ... }` block is left out only when re-reading the text infers the same roots."""
+    import re
+    r = run.rule(rule_id, "ASTSchemaPrinter.print_schema_definition decided for the 27 combinations of (query, mutation, subscription) root "
+                          "being absent / carrying the conventional name of ITS OWN operation / carrying another name (the conventional name "
+                          "of another operation included), without schema directives: the block is omitted (the empty text is returned) "
+                          "exactly when every present root carries its own conventional name - the builder infers roots from the names "
+                          "Query / Mutation / Subscription, so `mutation: Subscription` printed without the block comes back as a "
+                          "subscription root", 27)
+    cls = prog.get_class("py_gql.sdl.ast_schema_printer", "ASTSchemaPrinter")
+    f = cls.find_method("print_schema_definition")
+    if f is None:
+        raise AnalysisError("C12.%s: print_schema_definition not found" % rule_id)
+    run.looked_at(f)
+    sp = f.params[1]
+    CONV = {"query": "Query", "mutation": "Mutation", "subscription": "Subscription"}
+    import itertools
+    bad = []
+    for combo in itertools.product(("absent", "own", "other"), repeat=3):
+        state = dict(zip(("query", "mutation", "subscription"), combo))
+
+        def decide(t, state=state):
+            m = re.match(r"^%s\.(query|mutation|subscription)_type( is None)?$" % re.escape(sp), t)
+            if m:
+                present = state[m.group(1)] != "absent"
+                return (not present) if m.group(2) else present
+            m = re.match(r"^%s\.(query|mutation|subscription)_type\.name == '(\w+)'$" % re.escape(sp), t)
+            if m:
+                return state[m.group(1)] == "own" and m.group(2) == CONV[m.group(1)]
+            if t == "directives" or re.match(r"^\w*directives\w*$", t):
+                return False
+            return None
+        try:
+            _ev, exits = boolx.walk_under(f.node, decide)
+        except ValueError as e:
+            raise AnalysisError("C12.%s: %s" % (rule_id, e))
+        outs = set()
+        for kind, st, env in exits:
+            if kind != "return":
+                outs.add("<%s>" % kind)
+                continue
+            outs.add("omitted" if isinstance(st.value, ast.Constant) and st.value.value == "" else "printed")
+        want = "omitted" if all(s in ("absent", "own") for s in combo) else "printed"
+        r.instance("roots %s -> %s" % (combo, sorted(outs)))
+        if outs != {want}:
+            bad.append({"roots": combo, "outcome": sorted(outs), "expected": want})
+    if bad:
+        run.report(r, "py_gql.sdl.ast_schema_printer:ASTSchemaPrinter.print_schema_definition:block-omission", f.where(),
+                   "the schema block is %s for roots (query, mutation, subscription) = %s (%d of 27 rows wrong): re-reading the printed "
+                   "text infers other roots" % ("left out or undecided" if bad[0]["expected"] == "printed" else "printed", bad[0]["roots"], len(bad)),
+                   {"rows": bad[:8]})
